@@ -12,7 +12,7 @@ CFG_OBS = os.path.join(SPEC, "mc", "SqlObs.cfg")
 ENVELOPE = dict(null_lit=False, inl_null=False, jts=("inner", "inner", "left", "cross"), on=("eq",),
                 mod="const", subq=("exists", "in", "scalar"), like=True, case=True, touch_all=True,
                 const_pred=False, order_const=False, agg_const=False, distinct_order=False, countd=True,
-                not_in_sub=False, not_exists=True, sub_top_only=True, sel_needs_col=True, derived=0.2)
+                not_in_sub=False, not_exists=True, sub_top_only=True, sel_needs_col=True, derived=0.2, udf=True)
 ENVELOPE_INNER_ON = dict(ENVELOPE, jts=("inner",), on=("eq", "eq+", "any"))
 
 
@@ -173,7 +173,7 @@ def oracle_selfcheck(cases):
     SQLite and the standard agree).  A disagreement is a defect of SqlSem.tla / the SQL renderer."""
     agree = 0
     for c in cases:
-        got = G.sqlite_rows(c["db"], G.TABLES, c["sql"])
+        got = G.sqlite_rows(c["db"], G.TABLES, c["sql"], views=c.get("views") or ())
         if isinstance(got, tuple):
             continue
         e = [[dec(v) for v in row] for row in c["expected"]]
@@ -336,7 +336,9 @@ def evidence_sql(pid, tier, seed, level, cases, stats, agree, v, t0, rule, assum
 RULE = ("cases = (database over {NULL,0..3} x {NULL,'','a','b','ab'}, <=5 rows per table; query of the "
         "bounded grammar: <=3-way inner/left/cross joins, WHERE with 3VL predicates, IN / EXISTS / scalar "
         "subqueries, GROUP BY + COUNT/SUM/MIN/MAX/COUNT DISTINCT + HAVING, DISTINCT, ORDER BY, "
-        "LIMIT/OFFSET), seeded; each run on memory and disk engine (several row-sets per table, "
+        "LIMIT/OFFSET; derived tables written inline, as WITH clauses or as CREATE VIEW; IN lists over "
+        "columns; calls of SQL functions; every fourth schema with BIGINT / SMALLINT columns), seeded; plus the "
+        "directed plan-rule family; each run on memory and disk engine (several row-sets per table, "
         "primary-key variant), optimizer on / off / two mocked statistics; every result validated by "
         "TLC against SqlSem.tla; non-trivial = distinct queries whose prescribed result is non-empty")
 ASSUME = ["the reference semantics is SqlSem.tla, itself cross-checked against SQLite on every case",
@@ -516,7 +518,7 @@ T1 = {"t1": G.TABLES["t1"]}
 
 def order_query(rnd, rows, pkcol="a"):
     """select over t1 with ORDER BY / LIMIT / OFFSET (and a filter now and then)."""
-    g = G.Gen(rnd, tables=T1, joins=False, feat=dict(ENVELOPE, subq=()))
+    g = G.Gen(rnd, tables=T1, joins=False, feat=dict(ENVELOPE, subq=(), udf=False))
     scope = [("x1", c, ty) for c, ty in T1["t1"]]
     sel = [(("col", "x1", c, ty), f"c{i + 1}") for i, (c, ty) in enumerate(T1["t1"])]
     rnd.shuffle(sel)
@@ -562,7 +564,7 @@ def order_query(rnd, rows, pkcol="a"):
 
 def range_query(rnd, rows, pkcol="a"):
     """select with a comparison predicate on the primary key (pushed into the scan as a key range)."""
-    g = G.Gen(rnd, tables=T1, joins=False, feat=dict(ENVELOPE, subq=()))
+    g = G.Gen(rnd, tables=T1, joins=False, feat=dict(ENVELOPE, subq=(), udf=False))
     scope = [("x1", c, ty) for c, ty in T1["t1"]]
     cols = [("col", "x1", c, ty) for c, ty in T1["t1"]]
     proj = rnd.choice([cols, cols[::-1], [cols[1], cols[2]], [cols[1], cols[0]], [cols[2], cols[0], cols[1]]])
@@ -873,6 +875,9 @@ def seq_case(rnd):
         else:
             q = g.query()
             steps.append({"sql": G.sql_query(q), "kind": "query", "q": q})
+    # the SQL functions the statements call
+    pre = G.prelude(" ".join(st.get("sql", "") for st in steps))
+    steps = [{"sql": x, "kind": "ddl"} for x in pre] + steps
     return {"pk": pk, "nn": nn, "steps": steps}
 
 
@@ -998,7 +1003,7 @@ def c11_cases(seed, n):
     plan (nested-loop join, order + limit), the optimized plan (hash join, hash aggregation, top-n) and
     the optimized plan on primary-key tables of the disk engine (merge join, sort aggregation)."""
     rnd = random.Random(seed)
-    feats = dict(ENVELOPE, subq=(), jts=("inner", "inner", "left"), on=("eq",), like=False)
+    feats = dict(ENVELOPE, subq=(), jts=("inner", "inner", "left"), on=("eq",), like=False, udf=False)
     out = []
     for i in range(n):
         g = G.Gen(rnd, feat=feats)
